@@ -28,6 +28,9 @@ static bool app_range_legal(i128 start, i128 len)
   return start != 0 && len > 0 && !overlaps(R, start, len) && !overlaps(RB, start, len) && start + len <= (static_cast<i128>(1) << 64);
 }
 static bool any_range_legal(i128 start, i128 len) { return sbx_range_legal(start, len) || app_range_legal(start, len); }
+// a raw range partly inside the OTHER live sandbox lies wholly outside the sandbox the operation is for: the statement lets
+// it proceed, and it then runs into that sandbox's guard page here -- not driven
+static bool straddles_other_sandbox(i128 start, i128 len) { return len > 0 && overlaps(RB, start, len) && !in_region(RB, start, len) && !overlaps(R, start, len); }
 
 static std::vector<i128> extents(uint64_t off, size_t elsize, mon::Rng& rng)
 {
@@ -120,7 +123,11 @@ static void memset_case(uint64_t off, bool null_start, i128 n_in, mon::Rng& rng)
 // ------------------------------------------------------------------- memcpy
 enum SrcKind { SRC_SBX, SRC_HEAP, SRC_OTHER_SBX, SRC_STRADDLE_IN, SRC_NULL, SRC_STACK, SRC_GLOBAL };
 static const char* srckind[] = { "tainted-same-sandbox", "app-heap", "raw-other-sandbox", "raw-straddling-region-start", "null", "app-stack", "app-global" };
-static unsigned char g_global_buf[256];
+// an application buffer that crosses a multiple of the sandbox size (64 KiB), 128 bytes either side: backends that answer
+// "same sandbox?" by comparing the aligned blocks of two addresses say "no" for its two ends, although both are application
+// memory
+alignas(65536) static unsigned char g_global_arena[2 * 65536];
+static unsigned char (&g_global_buf)[256] = *reinterpret_cast<unsigned char (*)[256]>(g_global_arena + 65536 - 128);
 
 static void memcpy_case(uint64_t doff, bool dnull, SrcKind sk, uint64_t soff, i128 n, mon::Rng& rng)
 {
@@ -144,6 +151,7 @@ static void memcpy_case(uint64_t doff, bool dnull, SrcKind sk, uint64_t soff, i1
     case SRC_STACK: if (nn > sizeof stackbuf && dlegal) return; for (auto& b : stackbuf) b = static_cast<unsigned char>(rng()); srcp = stackbuf; sstart = reinterpret_cast<uintptr_t>(srcp); break;
     case SRC_GLOBAL: if (nn > sizeof g_global_buf && dlegal) return; for (auto& b : g_global_buf) b = static_cast<unsigned char>(rng()); srcp = g_global_buf; sstart = reinterpret_cast<uintptr_t>(srcp); break;
   }
+  if (straddles_other_sandbox(sstart, n)) return;
   bool slegal = any_range_legal(sstart, n);
   // overlapping source and destination inside the sandbox: std::memcpy is undefined there, not driven
   if (sk == SRC_SBX && dlegal && slegal && !(soff + nn <= doff || doff + nn <= soff)) return;
@@ -202,6 +210,7 @@ static void memcmp_case(uint64_t aoff, SrcKind sk, uint64_t soff, i128 n, bool t
     case SRC_NULL: srcp = nullptr; sstart = 0; break;
     default: return;
   }
+  if (straddles_other_sandbox(sstart, n)) return;
   bool slegal = any_range_legal(sstart, n);
   bool legal = n > 0 && alegal && slegal;
   mon::ctx("memcmp/%s | a=base+%llu src=%llu n=%s first=%d", srckind[sk], (unsigned long long)aoff, (unsigned long long)soff, mon::i128s(n).c_str(), tainted_first);
@@ -302,7 +311,7 @@ static void range_ops(mon::Rng& rng)
         std::string what = mon::fmt("unverified_safe_pointer_because<%s*>(start=base+%llu, count=%s): host element %zu bytes, guest element %zu bytes, %s bytes to region end", tn,
                                     (unsigned long long)off, mon::i128s(cnt).c_str(), hs, gs, mon::i128s(static_cast<i128>(R.size) - off).c_str());
         if (cnt == 0) n_empty++;
-        else if (!legal_g && !legal_h) { if (!ab) report("unverified_safe_pointer_because", "illegal-request-proceeded", what); else n_illegal_abort++; }
+        else if (!legal_g) { if (!ab) report("unverified_safe_pointer_because", "illegal-request-proceeded", what); else n_illegal_abort++; } // whole *sandbox* elements
         else if (legal_g && legal_h) {
           if (ab) report("unverified_safe_pointer_because", "legal-request-aborted", what);
           else if (reinterpret_cast<uintptr_t>(raw) != static_cast<uintptr_t>(start)) report("unverified_safe_pointer_because", "wrong-pointer", what);
@@ -356,7 +365,7 @@ static void usp_big(mon::Rng& rng)
         std::string what = mon::fmt("unverified_safe_pointer_because<%s*>(start=base+%llu, count=%s): host element %zu bytes, guest element %zu bytes, %s bytes to region end", tn,
                                     (unsigned long long)off, mon::i128s(cc).c_str(), hs, gs, mon::i128s(static_cast<i128>(R.size) - off).c_str());
         if (cc == 0) n_empty++;
-        else if (!legal_g && !legal_h) { if (!ab) report("unverified_safe_pointer_because", "illegal-request-proceeded", what); else n_illegal_abort++; }
+        else if (!legal_g) { if (!ab) report("unverified_safe_pointer_because", "illegal-request-proceeded", what); else n_illegal_abort++; } // whole *sandbox* elements
         else if (legal_g && legal_h) {
           if (ab) report("unverified_safe_pointer_because", "legal-request-aborted", what);
           else if (reinterpret_cast<uintptr_t>(raw) != static_cast<uintptr_t>(start)) report("unverified_safe_pointer_because", "wrong-pointer", what);
